@@ -22,7 +22,11 @@ RULE = (
     "unique / deliberately shadowing label names and $x names colliding across the func, global and local spaces) is accepted by V8 "
     "and gives the same results/traps/globals/memory as ref on the generated invocations, (d) w(r(w(r(b))))==w(r(b)) for "
     "a non-canonical encoding b (padded LEB128s, ungrouped locals). non-trivial = some function nests block/loop/if "
-    "inside another and branches, and the module has >=2 section kinds beyond type/function/code; distinct = hash of the case"
+    "inside another and branches, and the module has >=2 section kinds beyond type/function/code; distinct = hash of the case. "
+    "Thorough tier additionally: coverage-guided fuzzing of the binary reader (atheris/libFuzzer, vf/fuzz.py; two campaigns of "
+    "VERIF_FUZZ_RUNS (default 100000) executions from an empty corpus and from 30 reference binaries): for every input Module() accepts, "
+    "w(r(w(r(b)))) == w(r(b)) and Module(Module(b).to_string()).to_bytes() == Module(b).to_bytes(); a discrepancy counts only if V8 "
+    "validates the input (coverage[\"fuzz\"] holds executions, corpus growth and the outcome histogram)"
 )
 ASSUMPTIONS = [
     "no reference assembler in the image: 'the reference assembler's binary' is the output of the reference encoder "
@@ -35,7 +39,8 @@ ASSUMPTIONS = [
     "for other valid encodings of the same module only idempotence of read-write is demanded",
     "equivalence of text round trip is decided by to_bytes() equality; behaviour by V8 (results bitwise, NaN as a class)",
 ]
-TRUSTED = ["CPython", "Hypothesis", "Node/V8", "reference encoder and WAT renderer vf/wasmref.py"]
+TRUSTED = ["CPython", "Hypothesis", "Node/V8", "reference encoder and WAT renderer vf/wasmref.py",
+           "thorough tier: atheris 3.1 / libFuzzer (input producer only), V8 WebAssembly.validate (validity of fuzzed binaries)"]
 TECHNIQUE = "round-trip and differential testing of generated modules against a spec-derived encoder and V8"
 LEVEL_TEXT = (
     "Exploration: every generated module is pushed through binary read/write (byte equality with an independent "
@@ -203,7 +208,7 @@ def check_case(case):
 
 def replay(case):
     if fuzz.is_case(case):
-        return fuzz.replay_case(case, fuzz_binary)
+        return fuzz.replay_case(case, lambda d: fuzz_binary(d, known_as_label=False))
     try:
         return check_case(case)
     finally:
@@ -300,8 +305,10 @@ def _kf3_model(desc, mode):
 
 def classify(case, msg):
     h = parse_message(msg)
-    if h is None or fuzz.is_case(case):
-        return None  # (no open finding touches what the fuzz layer checks: re-encoding idempotence of arbitrary valid binaries)
+    if h is None:
+        return None
+    if fuzz.is_case(case):
+        return "C21-KF4" if _kf4_model(fuzz.case_bytes(case), h) else None
     desc = case["desc"]
     step = h.get("step")
     v = case.get("wat", {})
@@ -331,6 +338,27 @@ def classify(case, msg):
             return "C21-KF1" if "C21-KF2" not in core.open_finding_ids(PID) else "C21-KF2"
         return "C21-KF2"
     return None
+
+
+def _kf4_model(data, head):
+    """C21-KF4: the text writer prints import / export names unescaped.  Signature: the text round trip (step f3) fails, a
+    name contains '"' or a backslash, and the very same module round-trips once those characters are replaced."""
+    if head.get("step") != "f3":
+        return False
+    try:
+        from ppci.wasm import Module, components
+
+        m = Module(bytes(data))
+        hit = False
+        for d in m.definitions:
+            for attr in ("modname", "name") if isinstance(d, components.Import) else ("name",) if isinstance(d, components.Export) else ():
+                v = getattr(d, attr)
+                if isinstance(v, str) and ('"' in v or "\\" in v):
+                    setattr(d, attr, v.replace('"', "_").replace("\\", "_"))
+                    hit = True
+        return hit and Module(m.to_string()).to_bytes() == m.to_bytes()
+    except Exception:
+        return False
 
 
 def _worker(arg):
@@ -421,7 +449,7 @@ def v8_valid(data):
     return {0: True, 3: False}.get(p.returncode)
 
 
-def fuzz_binary(data):
+def fuzz_binary(data, known_as_label=True):
     """One fuzz input = bytes of a would-be wasm binary.  Returns an outcome label; raises fuzz.Failure on a C21 violation.
 
     The reader may reject an input with any exception (counted by type).  If it accepts:  w1 = Module(data).to_bytes(),
@@ -483,12 +511,16 @@ def fuzz_binary(data):
         return "discrepancy(%s):V8 not available" % bucket
     if not valid:
         return "discrepancy on an input V8 rejects:" + bucket
-    raise fuzz.Failure("C21 " + json.dumps({"step": step, "fuzz": True}) + "\nstep (%s) on a fuzzed binary that V8 validates: %s\ninput %s"
-                       % (step, detail, bytes(data).hex()[:1200]), bucket)  # fmt: skip
+    msg = "C21 " + json.dumps({"step": step, "fuzz": True}) + "\nstep (%s) on a fuzzed binary that V8 validates: %s\ninput %s" % (
+        step, detail, bytes(data).hex()[:1200])  # fmt: skip
+    kid = classify(fuzz.case(FUZZ_TARGET, data), msg) if known_as_label else None  # (replay reports; the runner classifies)
+    if kid and kid in core.open_finding_ids(PID) - set(os.environ.get("VERIF_ASSUME_FIXED", "").split(",")):
+        return "known:" + kid
+    raise fuzz.Failure(msg, bucket)
 
 
 def fuzz_seeds(seed, open_ids=()):
-    """reference binaries of ~30 generated modules"""
+    """reference binaries of ~30 generated modules (+ 10 non-canonical encodings)"""
     flags, _ = flags_for(set(open_ids))
     seeds = []
     for c in fuzz.collect(G.cases(flags, max_funcs=2, fuel=16, depth=3), 80, subseed(seed, PID, "fuzz-seeds")):
@@ -497,6 +529,12 @@ def fuzz_seeds(seed, open_ids=()):
             seeds.append(b)
         if len(seeds) >= 30:
             break
+    # + a non-canonical encoding (padded LEB128s, ungrouped locals) of every third module: byte mutation cannot lengthen a
+    # LEB128 in place (the enclosing sizes would have to change too), a padded one gives it room for large values
+    for i, c in enumerate(fuzz.collect(G.cases(flags, max_funcs=2, fuel=16, depth=3), 80, subseed(seed, PID, "fuzz-seeds"))[:30:3]):
+        b = R.encode(c["desc"], leb_pad=1 + i % 2, split_locals=True)
+        if len(b) <= fuzz.MAX_LEN and b not in seeds:
+            seeds.append(b)
     return seeds
 
 
